@@ -160,12 +160,16 @@ Definition recv_payload (s : layer) (m : micro) : list (list Z) :=
   | _ => []
   end.
 
+(** data frames a micro-step of the sender adds to the wire *)
+Definition xdata (sS : layer) (m : micro) : list frame := match m with MTx => pass_data cS sS | _ => [] end.
+
 (** **** (a) any micro-step of the sender layer *)
 Lemma Dir_sender sS sR ch g m :
   WF cS sS -> Dir sS sR ch g -> op_ok m -> send_fits m ->
   has_err (snd (mstep cS sS m)) = true \/
   exists g', Dir (fst (mstep cS sS m)) sR (ch ++ out_frames (snd (mstep cS sS m))) g' /\
-    map m_p (dH g') = map m_p (dH g) ++ sent_payload sS m /\ dR g' = dR g.
+    map m_p (dH g') = map m_p (dH g) ++ sent_payload sS m /\ dR g' = dR g /\
+    dW g' = dW g ++ xdata sS m /\ filter dataf (ch ++ out_frames (snd (mstep cS sS m))) = filter dataf ch ++ xdata sS m.
 Proof.
   intros Hwf (HST & HRT & HSc & Hch & (U & HU & Hflat) & Hpay) Hm Hfit.
   destruct (ST_step cS HokS sS (dW g) (dH g) m Hwf HST Hm) as [He|HST']; [left; exact He|right].
@@ -173,9 +177,12 @@ Proof.
   assert (Hsame : gW cS sS (dW g) m = dW g -> gH cS sS (dH g) m = dH g ->
             (match m with MTx => opt_list (tr_msg (process_tx cS sS)) | _ => [] end) = [] -> sent_payload sS m = [] ->
             exists g', Dir (fst (mstep cS sS m)) sR (ch ++ []) g' /\
-              map m_p (dH g') = map m_p (dH g) ++ sent_payload sS m /\ dR g' = dR g).
-  { intros E1 E2 _ E4. rewrite E1, E2 in HST'. exists g. rewrite app_nil_r, E4, app_nil_r.
-    split; [|split; reflexivity]. split; [exact HST'|]. split; [exact HRT|]. split; [exact HSc|]. split; [exact Hch|]. split; [|exact Hpay]. exists U. split; assumption. }
+              map m_p (dH g') = map m_p (dH g) ++ sent_payload sS m /\ dR g' = dR g /\
+              dW g' = dW g ++ xdata sS m /\ filter dataf (ch ++ []) = filter dataf ch ++ xdata sS m).
+  { intros E1 E2 E3 E4. rewrite E1, E2 in HST'. exists g. rewrite app_nil_r, E4, app_nil_r.
+    assert (Ex : xdata sS m = []) by (destruct m; try reflexivity; unfold gW in E1; cbn [xdata]; apply (app_inv_head (dW g)); rewrite app_nil_r; exact E1).
+    rewrite Ex, !app_nil_r.
+    split; [|split; [reflexivity|split; [reflexivity|auto]]]. split; [exact HST'|]. split; [exact HRT|]. split; [exact HSc|]. split; [exact Hch|]. split; [|exact Hpay]. exists U. split; assumption. }
   destruct m; try (apply Hsame; reflexivity); try (destruct Hm; fail).
   - (* a transmit pass *)
     cbn [gW gH] in HST'. unfold pass_data in HST'.
@@ -188,8 +195,11 @@ Proof.
       assert (Hall : Forall m_ok (dH g)) by (destruct HST as (d0 & p0 & _ & Ha & _); exact Ha).
       pose proof (segs_props _ Hall) as Hprops. rewrite <- HU, EU in Hprops.
       apply Forall_app in Hprops. destruct Hprops as [_ Hprops]. apply Forall_app in Hprops. destruct Hprops as [Hnf _].
+      assert (Hfil : filter dataf (ch ++ nf) = filter dataf ch ++ nf).
+      { rewrite filter_app, (filter_all dataf nf); [reflexivity|]. eapply Forall_impl; [|exact Hnf]. intros f [_ Hf]; exact Hf. }
       exists {| dW := dW g ++ nf; dH := dH g; dcur := dcur g; dS := dS g; dR := dR g |}. cbn [sent_payload]. rewrite app_nil_r.
-      split; [|split; reflexivity]. unfold Dir. cbn [dW dH dcur dS dR].
+      assert (Exd : xdata sS MTx = nf) by (cbn [xdata]; unfold pass_data; rewrite Ei; reflexivity).
+      split; [|split; [reflexivity|split; [reflexivity|rewrite Exd; split; [reflexivity|exact Hfil]]]]. unfold Dir. cbn [dW dH dcur dS dR].
       split; [exact HST'|]. split; [exact HRT|]. split; [exact HSc|].
       split; [apply Forall_app; split; [exact Hch|eapply Forall_impl; [|exact Hnf]; intros f [Hf _]; exact Hf]|].
       split; [|exact Hpay].
@@ -200,8 +210,13 @@ Proof.
       rewrite app_nil_r in HST'.
       assert (Hg : forall fs, Forall (fun f => from_me cS f /\ dataf f = false) fs ->
                 exists g', Dir (fst (mstep cS sS MTx)) sR (ch ++ fs) g' /\
-                  map m_p (dH g') = map m_p (dH g) ++ sent_payload sS MTx /\ dR g' = dR g).
-      { intros fs Hfs. exists g. cbn [sent_payload]. rewrite app_nil_r. split; [|split; reflexivity].
+                  map m_p (dH g') = map m_p (dH g) ++ sent_payload sS MTx /\ dR g' = dR g /\
+                  dW g' = dW g ++ xdata sS MTx /\ filter dataf (ch ++ fs) = filter dataf ch ++ xdata sS MTx).
+      { intros fs Hfs.
+        assert (Hfil : filter dataf (ch ++ fs) = filter dataf ch ++ []).
+        { rewrite filter_app. f_equal. clear -Hfs. induction Hfs as [|f l [_ Hf] _ IH]; [reflexivity|]. cbn. rewrite Hf. exact IH. }
+        assert (Exd : xdata sS MTx = []) by (cbn [xdata]; unfold pass_data; rewrite Ei; reflexivity).
+        exists g. cbn [sent_payload]. rewrite app_nil_r. split; [|split; [reflexivity|split; [reflexivity|rewrite Exd; split; [rewrite app_nil_r; reflexivity|exact Hfil]]]].
         split; [exact HST'|]. split; [exact HRT|]. split; [exact HSc|].
         split; [apply Forall_app; split; [exact Hch|eapply Forall_impl; [|exact Hfs]; intros f [Hf _]; exact Hf]|].
         split; [|exact Hpay]. exists U. split; [exact HU|]. rewrite Hflat. f_equal. f_equal.
@@ -214,7 +229,7 @@ Proof.
   - (* send() *)
     cbn [gW gH] in HST'. cbn [sent_payload]. destruct Hm as [Hfill Hsize]. cbn [send_fits] in Hfit.
     destruct (snd (send cS sS g0 size t)) eqn:Esend.
-    2: { exists g. rewrite !app_nil_r. split; [|split; reflexivity]. split; [exact HST'|]. split; [exact HRT|]. split; [exact HSc|]. split; [exact Hch|]. split; [|exact Hpay]. exists U. split; assumption. }
+    2: { exists g. cbn [xdata]. rewrite !app_nil_r. split; [|split; [reflexivity|split; [reflexivity|auto]]]. split; [exact HST'|]. split; [exact HRT|]. split; [exact HSc|]. split; [exact Hch|]. split; [|exact Hpay]. exists U. split; assumption. }
     set (mk := send_msg cS sS g0 size t) in *.
     assert (Hmp : m_p mk = ztake size (g_items g0)) by reflexivity.
     assert (Hmn : m_n mk = size) by (unfold m_n; rewrite Hmp, zlen_ztake by lia; lia).
@@ -222,7 +237,7 @@ Proof.
     { destruct HST' as (d0 & p0 & _ & Ha & _). apply Forall_app in Ha. destruct Ha as [_ Ha]. inversion Ha; assumption. }
     exists {| dW := dW g; dH := dH g ++ [mk]; dcur := dcur g; dS := dS g ++ [entry mk]; dR := dR g |}.
     rewrite app_nil_r. cbn [dW dH dcur dS dR]. rewrite map_app. cbn [map]. rewrite Hmp.
-    split; [|split; reflexivity]. unfold Dir. cbn [dW dH dcur dS dR].
+    cbn [xdata]. rewrite !app_nil_r. split; [|split; [reflexivity|split; [reflexivity|auto]]]. unfold Dir. cbn [dW dH dcur dS dR].
     split; [exact HST'|].
     split; [exact HRT|].
     split. { apply Forall_app. split; [exact HSc|]. constructor; [|constructor]. cbn [entry fst snd]. split.
@@ -243,18 +258,18 @@ Definition not_rx (m : micro) : Prop := match m with MRx _ => False | _ => True 
 Lemma Dir_receiver sS sR ch g m :
   Dir sS sR ch g -> op_ok m -> not_rx m ->
   has_err (snd (mstep cR sR m)) = true \/
-  exists g', Dir sS (fst (mstep cR sR m)) ch g' /\ dH g' = dH g /\ dR g' = dR g ++ recv_payload sR m.
+  exists g', Dir sS (fst (mstep cR sR m)) ch g' /\ dH g' = dH g /\ dR g' = dR g ++ recv_payload sR m /\ dW g' = dW g.
 Proof.
   intros (HST & HRT & HSc & Hch & HU & Hpay) Hm Hnr.
   assert (Hkeep : op_okR m -> recv_payload sR m = [] ->
             has_err (snd (mstep cR sR m)) = true \/
-            exists g', Dir sS (fst (mstep cR sR m)) ch g' /\ dH g' = dH g /\ dR g' = dR g ++ recv_payload sR m).
+            exists g', Dir sS (fst (mstep cR sR m)) ch g' /\ dH g' = dH g /\ dR g' = dR g ++ recv_payload sR m /\ dW g' = dW g).
   { intros Hr Hnp.
     assert (Hon : on_script cR (dcur g, dS g, rx_queue sR) m) by (destruct m; cbn; auto; destruct Hnr).
     destruct (RT_step cR sR (dcur g) (dS g) (rx_queue sR) m HSc HRT Hr Hon) as [He|Hs]; [left; exact He|right].
     assert (Hg : gR cR (dcur g, dS g, rx_queue sR) m = (dcur g, dS g, rx_queue sR)) by (destruct m; try reflexivity; destruct Hnr).
     rewrite Hg in Hs. destruct Hs as [HRT' HSc'].
-    exists g. rewrite Hnp, app_nil_r. split; [|split; reflexivity].
+    exists g. rewrite Hnp, app_nil_r. split; [|split; [reflexivity|split; reflexivity]].
     pose proof HRT' as [HQ _].
     split; [exact HST|]. split; [rewrite HQ; exact HRT'|]. split; [exact HSc'|]. split; [exact Hch|]. split; [exact HU|].
     rewrite HQ. exact Hpay. }
@@ -262,11 +277,11 @@ Proof.
   (* recv() *)
   right. cbn [mstep fst snd recv_payload]. unfold recv.
   destruct (rx_queue sR) as [|x q] eqn:Eq.
-  - exists g. cbn [fst snd]. rewrite app_nil_r. split; [|split; reflexivity].
+  - exists g. cbn [fst snd]. rewrite app_nil_r. split; [|split; [reflexivity|split; reflexivity]].
     split; [exact HST|]. split; [rewrite Eq; exact HRT|]. split; [exact HSc|]. split; [exact Hch|]. split; [exact HU|].
     rewrite Eq; exact Hpay.
   - exists {| dW := dW g; dH := dH g; dcur := dcur g; dS := dS g; dR := dR g ++ [x] |}. cbn [fst snd dW dH dcur dS dR].
-    split; [|split; reflexivity]. unfold Dir. cbn [dW dH dcur dS dR rx_queue set RecordSet.set].
+    split; [|split; [reflexivity|split; reflexivity]]. unfold Dir. cbn [dW dH dcur dS dR rx_queue set RecordSet.set].
     split; [exact HST|].
     split. { destruct HRT as [_ HR]. split; [reflexivity|]. destruct (dcur g) as [[p todo]|]; exact HR. }
     split; [exact HSc|]. split; [exact Hch|]. split; [exact HU|].
@@ -303,7 +318,7 @@ Lemma Dir_pop sS sR f ch g :
   Dir sS sR (f :: ch) g ->
   c_is_for_me cR f = true /\
   (has_err (snd (mstep cR sR (MRx f))) = true \/
-   exists g', Dir sS (fst (mstep cR sR (MRx f))) ch g' /\ dH g' = dH g /\ dR g' = dR g).
+   exists g', Dir sS (fst (mstep cR sR (MRx f))) ch g' /\ dH g' = dH g /\ dR g' = dR g /\ dW g' = dW g).
 Proof.
   intros (HST & HRT & HSc & Hch & (U & HU & Hflat) & Hpay).
   inversion Hch as [|? ? Hf Hch']; subst.
@@ -319,7 +334,7 @@ Proof.
     destruct (advance (dcur g) (dS g)) as [[cur' S'] out] eqn:Ea. cbn [fst snd] in *. destruct Hs as [HRT' HSc'].
     pose proof HRT' as [HQ _].
     exists {| dW := dW g; dH := dH g; dcur := cur'; dS := S'; dR := dR g |}. cbn [dW dH dcur dS dR].
-    split; [|split; reflexivity]. unfold Dir. cbn [dW dH dcur dS dR].
+    split; [|split; [reflexivity|split; reflexivity]]. unfold Dir. cbn [dW dH dcur dS dR].
     split; [exact HST|]. split; [rewrite HQ; exact HRT'|]. split; [exact HSc'|]. split; [exact Hch'|].
     split; [exists U; split; [exact HU|exact Htl]|].
     rewrite HQ, <- Hpay, <- Hp, <- !app_assoc. reflexivity.
@@ -328,10 +343,23 @@ Proof.
     destruct (RT_step cR sR (dcur g) (dS g) (rx_queue sR) (MRx f) HSc HRT I Hon) as [He|Hs]; [left; exact He|right].
     cbn [gR] in Hs. rewrite dataf_data_frame, Edf in Hs. destruct Hs as [HRT' HSc'].
     pose proof HRT' as [HQ _].
-    exists g. split; [|split; reflexivity].
+    exists g. split; [|split; [reflexivity|split; reflexivity]].
     split; [exact HST|]. split; [rewrite HQ; exact HRT'|]. split; [exact HSc'|]. split; [exact Hch'|].
     split; [exists U; split; [exact HU|exact Hflat]|].
     rewrite HQ. exact Hpay.
+Qed.
+
+Lemma Dir_ST sS sR ch g : Dir sS sR ch g -> ST cS sS (dW g) (dH g).
+Proof. intros (H & _). exact H. Qed.
+
+(** the oldest data frame in flight is the one the receiver's script expects *)
+Lemma Dir_expected sS sR f ch g : Dir sS sR (f :: ch) g -> dataf f = true ->
+  script_ok cR (dS g) /\ RT cR sR (dcur g) (rx_queue sR) /\ expected (dcur g) (dS g) = Some (f_data f).
+Proof.
+  intros (HST & HRT & HSc & Hch & (U & HU & Hflat) & Hpay) Edf.
+  cbn [filter] in Hflat. rewrite Edf in Hflat. cbn [app map] in Hflat.
+  destruct (advance_spec (dcur g) (dS g) (f_data f) _ (RT_cur_nonempty _ _ _ HRT) (script_nonempty _ HSc) Hflat) as (Hexp & _).
+  auto.
 Qed.
 
 (** **** at rest everything has arrived *)
@@ -445,8 +473,8 @@ Proof.
     pose proof (WF_mstep ca (nA n) m Hwa) as Hw'.
     destruct (mstep ca (nA n) m) as [s' evs]. cbn [fst snd] in *.
     rewrite jerr_app, jerr_events, jerr_obs, orb_false_r.
-    destruct HS as [He|(gab' & Dab' & EH & ER)]; [left; exact He|].
-    destruct HR as [He|(gba' & Dba' & EH' & ER')]; [left; exact He|].
+    destruct HS as [He|(gab' & Dab' & EH & ER & _)]; [left; exact He|].
+    destruct HR as [He|(gba' & Dba' & EH' & ER' & _)]; [left; exact He|].
     right. exists gab', gba'. cbn [fst snd push_out set_lay set_inbox inbox other nA nB inA inB]. split; [split; [|split; [|split]]; assumption|].
     unfold Obs. rewrite !sent_of_app, !recv_of_app, !sent_of_events, !recv_of_events, !sent_of_obs, !recv_of_obs. cbn [side_eqb app].
     rewrite !app_nil_r. repeat split; congruence.
@@ -457,8 +485,8 @@ Proof.
     pose proof (WF_mstep cb (nB n) m Hwb) as Hw'.
     destruct (mstep cb (nB n) m) as [s' evs]. cbn [fst snd] in *.
     rewrite jerr_app, jerr_events, jerr_obs, orb_false_r.
-    destruct HS as [He|(gba' & Dba' & EH & ER)]; [left; exact He|].
-    destruct HR as [He|(gab' & Dab' & EH' & ER')]; [left; exact He|].
+    destruct HS as [He|(gba' & Dba' & EH & ER & _)]; [left; exact He|].
+    destruct HR as [He|(gab' & Dab' & EH' & ER' & _)]; [left; exact He|].
     right. exists gab', gba'. cbn [fst snd push_out set_lay set_inbox inbox other nA nB inA inB]. split; [split; [|split; [|split]]; assumption|].
     unfold Obs. rewrite !sent_of_app, !recv_of_app, !sent_of_events, !recv_of_events, !sent_of_obs, !recv_of_obs. cbn [side_eqb app].
     rewrite !app_nil_r. repeat split; congruence.
@@ -471,8 +499,8 @@ Proof.
     pose proof (WF_mstep ca (nA n) (MRx f) Hwa) as Hw'.
     destruct (mstep ca (nA n) (MRx f)) as [s' evs]. cbn [fst snd] in *.
     rewrite jerr_events.
-    destruct HS as [He|(gab' & Dab' & EH & ER)]; [left; exact He|].
-    destruct HR as [He|(gba' & Dba' & EH' & ER')]; [left; exact He|].
+    destruct HS as [He|(gab' & Dab' & EH & ER & _)]; [left; exact He|].
+    destruct HR as [He|(gba' & Dba' & EH' & ER' & _)]; [left; exact He|].
     right. exists gab', gba'. cbn [fst snd push_out set_lay set_inbox inbox other nA nB inA inB]. split; [split; [|split; [|split]]; assumption|].
     unfold Obs. rewrite !sent_of_app, !recv_of_app, !sent_of_events, !recv_of_events, !app_nil_r.
     cbn [sent_payload] in EH. rewrite app_nil_r in EH. repeat split; congruence.
@@ -485,8 +513,8 @@ Proof.
     pose proof (WF_mstep cb (nB n) (MRx f) Hwb) as Hw'.
     destruct (mstep cb (nB n) (MRx f)) as [s' evs]. cbn [fst snd] in *.
     rewrite jerr_events.
-    destruct HS as [He|(gba' & Dba' & EH & ER)]; [left; exact He|].
-    destruct HR as [He|(gab' & Dab' & EH' & ER')]; [left; exact He|].
+    destruct HS as [He|(gba' & Dba' & EH & ER & _)]; [left; exact He|].
+    destruct HR as [He|(gab' & Dab' & EH' & ER' & _)]; [left; exact He|].
     right. exists gab', gba'. cbn [fst snd push_out set_lay set_inbox inbox other nA nB inA inB]. split; [split; [|split; [|split]]; assumption|].
     unfold Obs. rewrite !sent_of_app, !recv_of_app, !sent_of_events, !recv_of_events, !app_nil_r.
     cbn [sent_payload] in EH. rewrite app_nil_r in EH. repeat split; congruence.
